@@ -198,11 +198,11 @@ int assignnodes(int ndim, struct vf_seq_int* factors, struct vf_seq_int* dims)
 #define C33_FINDING                                                                                                    \
   (ALL4(NONNEG_NOW) && ALL4(DIVIDES_NOW) && nnodes % (GIVEN_NOW(0) * GIVEN_NOW(1) * GIVEN_NOW(2) * GIVEN_NOW(3)) != 0)
 int Topo_Cart__Dims_create(struct Topo_Cart* self, int nnodes, int ndims, int* dims)
-#ifdef C33_EXCLUDE_FINDING
-    __CPROVER_requires(!C33_FINDING)
-#endif
     __CPROVER_requires(dims == g_c && 1 <= nnodes && nnodes <= MAXN && 1 <= ndims && ndims <= ND && ALL4(DIM_DOMAIN) &&
                        vf_exc == 0)
+#ifdef C33_EXCLUDE_FINDING /* after the clause that bounds the entries: the products below must not overflow */
+    __CPROVER_requires(!C33_FINDING)
+#endif
     __CPROVER_assigns(__CPROVER_object_whole(g_c))
     __CPROVER_ensures(vf_exc == 0)
     __CPROVER_ensures(__CPROVER_return_value != OK_ ||
